@@ -11,8 +11,8 @@ the root of the start tree (unresolvable prefix), `Entry.Augment` records `augme
 it, and `Find` creates an absent rpc input / output on its way.  `Built'` adds these as
 constructors that leave the provenance as it is (`rootErr`, `implicit`), and `congr` (a forest is
 only ever observed through `tree?`).  `built'_namespace` is C12's provenance theorem for `Built'`;
-the rest threads `Built'` through `augmentTree`, `augmentPass`, `augmentLoop`, the leftover pass
-and `FixChoice`.
+the rest threads `Built'` through `augmentTree`, `augmentPass`, `augmentLoop`, the retry rounds, the
+reporting sweep and `FixChoice`.
 -/
 set_option linter.unusedVariables false
 set_option linter.unusedSimpArgs false
@@ -520,13 +520,12 @@ theorem bi_pstate0 (reg : Registry) (opts : Opts) (plug : Plug) : BI reg (Tree.p
       exact noStamp_dir a ((noStampL_iff _).mp (hst.2.2 r (List.mem_of_find?_eq_some hf)) a ha)
 
 /-- **The forest `processAll` applies its deviations to is `Built'`** — through the augment loop,
-`FixChoice`, the leftover pass and the second `FixChoice`; for every registry, option set and
+`FixChoice`, the retry rounds, the reporting sweep and the last `FixChoice`; for every registry, option set and
 plugged-in stage. -/
 theorem bi_preDev (reg : Registry) (opts : Opts) (plug : Plug) : BI reg (Tree.preDev reg opts plug) := by
-  have h1 := augmentLoop_bi reg ((Tree.pending0 reg opts plug).foldl (fun n p => n + p.2.length) 0 + 2)
-    ((Tree.augOrder reg).map (·.seq)).toArray (Tree.pstate0 reg opts plug) (bi_pstate0 reg opts plug)
-  have h2 := leftover_bi reg (Tree.afterLoop reg opts plug).1 (Tree.fixAll (Tree.afterLoop reg opts plug).2)
-    (fixAll_bi reg _ h1)
+  have h1 := Tree.afterRounds_state reg opts plug (BI reg) (augmentLoop_bi reg) (fixAll_bi reg)
+    (bi_pstate0 reg opts plug)
+  have h2 := leftover_bi reg (Tree.afterRounds reg opts plug).1 (Tree.afterRounds reg opts plug).2 h1
   unfold Tree.preDev
   split
   · exact fixAll_bi reg _ h2
